@@ -3,6 +3,9 @@
 PROPS = {
     "C01": {
         "level": "exploration",
+        "level_text": "Seeded exploration: the real server runs on a simulated connection; a scripted peer with an independent codec sends multiplexed well-formed requests with seeded encodings, fragmentation, interleavings and handler completion orders. Per stream the oracle demands exactly one handler call that saw exactly the request, exactly the produced response at the peer, END_STREAM once, completion at quiescence. Sampling is the right level: the quantifier ranges over unbounded inputs x schedules.",
+        "level_note": "Trusted: x/net framer+hpack as reference codec, the reference HPACK encoder (self-checked against x/net on every block), fasthttp's request accessors as the lossless view of a request. Map iteration order pinned. Bodies <= 150 KB, <= 8 streams per run.",
+        "design_ref": "DESIGN.md §3 C01",
         "rule": "a run = one seeded plan (≤16 multiplexed well-formed requests, reference-encoder representation choices, "
                 "HEADERS/CONTINUATION split points, padding, priority, DATA chunking incl. empty frames, response shapes) executed "
                 "under one seeded schedule (goroutine interleaving, select arms, transport fragmentation, handler completion order). "
@@ -10,5 +13,14 @@ PROPS = {
                 "sequence of context switches and environment actions.",
         "faults": ["frag", "delay/reorder-dirs", "backpressure", "handler gate order", "short reads of body streams"],
         "probes_expected": ["header-block-split", "headers-padded", "data-padded", "data-empty"],
+    },
+    "C06": {
+        "level": "exploration",
+        "level_text": "Seeded exploration with the peer owning the authoritative window ledger: every DATA frame in the server's output order is checked against what the peer's initial windows, SETTINGS changes (increase counted from sending, decrease from the server's ACK) and WINDOW_UPDATEs have granted, and against the peer's MAX_FRAME_SIZE; liveness is judged at drain quiescence after the peer granted ample credit.",
+        "level_note": "Permissive in both directions by construction, so a conforming sender is never flagged. Known finding: DATA sent after the ACK of a SETTINGS decrease (see known-findings.txt) is reported as KNOWN-FINDING, any other overrun is a VIOLATION.",
+        "design_ref": "DESIGN.md §3 C06",
+        "rule": "a run = seeded plan (1-5 responses sized around/above the windows, buffered or streamed; peer initial window from {0,1,100,...}; control lane of WINDOW_UPDATEs and SETTINGS_INITIAL_WINDOW_SIZE / MAX_FRAME_SIZE changes) under one seeded schedule. Non-trivial: at least one DATA frame left a window (stream or connection) at exactly zero, i.e. the window was the binding constraint. Distinct: interleaving hash.",
+        "faults": ["frag", "delay/reorder-dirs", "window stall (peer withholds credit)", "handler gate order", "short reads of body streams"],
+        "probes_expected": ["window-bound"],
     },
 }
